@@ -62,3 +62,19 @@ Definition oku (c : caseu) : bool :=
   fclose (@evaluate FOps blend minf iops) ge && fclose (@evaluate_slow FOps minf iops) gs.
 Definition mismatchesu (cs : list caseu) : list N :=
   map (fun c : caseu => let '(id, _, _, _, _, _) := c in id) (filter (fun c => negb (oku c)) cs).
+
+(* overlap cases judged three ways (added for the scale / ulp-neighbourhood strata of
+   harness/cmd/c16/scales.go): the float instance of the model, the rational instance of the model
+   on the exact values of the end points, and the exact rational specification "the intervals share
+   a value" in the form max of the lower ends <= min of the upper ends (C16_overlap_iff). *)
+Definition qmax2 (x y : Q) : Q := if Qle_bool x y then y else x.
+Definition qmin2 (x y : Q) : Q := if Qle_bool x y then x else y.
+Definition share_q (a b : float * float) : bool :=
+  Qle_bool (qmax2 (F2Q (fst a)) (F2Q (fst b))) (qmin2 (F2Q (snd a)) (F2Q (snd b))).
+Definition oko (c : caseo) : bool :=
+  let '(id, a, b, g) := c in
+  Bool.eqb (@iv_overlap FOps a b) g &&
+  Bool.eqb (@iv_overlap QOps (F2Q (fst a), F2Q (snd a)) (F2Q (fst b), F2Q (snd b))) g &&
+  Bool.eqb (share_q a b) g.
+Definition mismatchesoq (cs : list caseo) : list N :=
+  map (fun c : caseo => let '(id, _, _, _) := c in id) (filter (fun c => negb (oko c)) cs).
